@@ -151,6 +151,7 @@ pub struct Gen<'a> {
     pub rng: &'a mut Rng,
     pub p: &'a Profile,
     pub keys_pool: Vec<DbValue>,
+    pub allow_dup: bool,
 }
 
 impl Gen<'_> {
@@ -194,7 +195,10 @@ impl Gen<'_> {
         let mut out: Vec<DbKeyValue> = vec![];
         for _ in 0..n {
             let k = self.key();
-            if out.iter().any(|kv| kv.key == k) {
+            // The same key twice in one list: for an EXISTING element the later pair must replace the earlier one
+            // (C09). For elements created by the query itself the repository's own tests pin "both pairs are stored"
+            // (insert_edges_from_to_values_uniform), which the property does not speak about: never generated.
+            if out.iter().any(|kv| kv.key == k) && !(self.allow_dup && self.rng.chance(1, 3)) {
                 continue;
             }
             let v = self.value();
@@ -274,7 +278,9 @@ impl Gen<'_> {
             let c = self.rng.range(1, 2) as usize;
             let pool = if p.bad_inputs && self.rng.chance(1, 10) { view.all() } else { view.nodes.clone() };
             let ids: Vec<QueryId> = (0..c).map(|_| self.qid(&pool, view, 8)).collect();
+            self.allow_dup = true;
             let values = self.values_for(c);
+            self.allow_dup = false;
             let aliases = if self.rng.chance(1, 3) { (0..self.rng.range(1, c as u64)).map(|_| self.alias()).collect() } else { vec![] };
             return Some(MQ::InsertNodes(InsertNodesQuery { count: 0, values, aliases, ids: QueryIds::Ids(ids) }));
         }
@@ -294,7 +300,9 @@ impl Gen<'_> {
             let c = self.rng.range(1, 2) as usize;
             let pool = if p.bad_inputs && self.rng.chance(1, 10) { view.all() } else { view.edges.clone() };
             let ids: Vec<QueryId> = (0..c).map(|_| self.qid(&pool, view, 8)).collect();
+            self.allow_dup = true;
             let values = self.values_for(c);
+            self.allow_dup = false;
             return Some(MQ::InsertEdges(InsertEdgesQuery { from: QueryIds::Ids(vec![]), to: QueryIds::Ids(vec![]), ids: QueryIds::Ids(ids), values, each: false }));
         }
         if pick(p.w_insert_aliases) {
@@ -324,7 +332,13 @@ impl Gen<'_> {
                 }
             }
             if ids.is_empty() { return None; }
+            // duplicates only when no element is created by this query (id 0 / an alias not in use create nodes)
+            self.allow_dup = ids.iter().all(|q| match q {
+                QueryId::Id(i) => i.0 != 0,
+                QueryId::Alias(a) => view.aliases.iter().any(|(x, _)| x == a),
+            });
             let values = self.values_for(ids.len());
+            self.allow_dup = false;
             return Some(MQ::InsertValues(InsertValuesQuery { ids: QueryIds::Ids(ids), values }));
         }
         if pick(p.w_index) {
@@ -614,7 +628,7 @@ pub fn run(args: &Args) {
                 let n = rng.range(1, 4) as usize;
                 let mut qs: Vec<MQ> = vec![];
                 {
-                    let mut g = Gen { rng: &mut rng, p: &profile, keys_pool: std::mem::take(&mut keys_pool) };
+                    let mut g = Gen { rng: &mut rng, p: &profile, keys_pool: std::mem::take(&mut keys_pool), allow_dup: false };
                     let mut tries = 0;
                     while qs.len() < n && tries < 20 {
                         tries += 1;
@@ -647,7 +661,7 @@ pub fn run(args: &Args) {
                 trace.emit(ev);
             } else {
                 let q = {
-                    let mut g = Gen { rng: &mut rng, p: &profile, keys_pool: std::mem::take(&mut keys_pool) };
+                    let mut g = Gen { rng: &mut rng, p: &profile, keys_pool: std::mem::take(&mut keys_pool), allow_dup: false };
                     let q = g.mutation(&view);
                     keys_pool = g.keys_pool;
                     q
